@@ -41,13 +41,13 @@ type vsPart struct {
 	size, beg, end, time      int64
 }
 
-func (p *vsPart) GetName() string         { return p.name }
-func (p *vsPart) GetRenamed() string      { return p.renamed }
-func (p *vsPart) GetPrev() string         { return p.prev }
-func (p *vsPart) GetFileTime() time.Time  { return time.Unix(p.time, 0) }
-func (p *vsPart) GetFileHash() string     { return p.hash }
-func (p *vsPart) GetFileSize() int64      { return p.size }
-func (p *vsPart) GetSendSize() int64      { return p.size }
+func (p *vsPart) GetName() string          { return p.name }
+func (p *vsPart) GetRenamed() string       { return p.renamed }
+func (p *vsPart) GetPrev() string          { return p.prev }
+func (p *vsPart) GetFileTime() time.Time   { return time.Unix(p.time, 0) }
+func (p *vsPart) GetFileHash() string      { return p.hash }
+func (p *vsPart) GetFileSize() int64       { return p.size }
+func (p *vsPart) GetSendSize() int64       { return p.size }
 func (p *vsPart) GetSlice() (int64, int64) { return p.beg, p.end }
 
 type vsOp struct {
@@ -243,6 +243,8 @@ func verifStageCase(tmp string, caseNo int, ops []vsOp) string {
 			}
 		case "SQ":
 			fmt.Fprintf(&w, " SQ %s %d", gen.Hex(op.name), op.num)
+		case "SV":
+			fmt.Fprintf(&w, " SV %s %d %s", gen.Hex(op.name), op.num, gen.Hex(op.part.hash))
 		case "AG":
 			fmt.Fprintf(&w, " AG %s", gen.Hex(op.name))
 		case "AA":
@@ -300,6 +302,13 @@ func verifStageCase(tmp string, caseNo int, ops []vsOp) string {
 				sent = time.Unix(now+op.num, 0)
 			}
 			fmt.Fprintf(&w, " %d", e.st.GetFileStatus(op.name, sent))
+		case "SV":
+			// the poll as the server makes it when the sender names the hash of the version it sent
+			sent := time.Time{}
+			if op.num != 0 {
+				sent = time.Unix(now+op.num, 0)
+			}
+			fmt.Fprintf(&w, " %d", e.st.GetVersionStatus(op.name, op.part.hash, sent))
 		case "SC":
 			b, err := e.st.Scan("1")
 			if err != nil {
@@ -519,6 +528,10 @@ func verifStageParse(l string) []vsOp {
 		case "SQ":
 			op.name = str()
 			op.num = num()
+		case "SV":
+			op.name = str()
+			op.num = num()
+			op.part.hash = str()
 		case "AG":
 			op.name = str()
 		case "AA":
@@ -819,7 +832,10 @@ func verifStageMatrix2(r *gen.Rand) []vsOp {
 		} else {
 			recv(v2, 0, len(v2.content))
 		}
-		ops = append(ops, vsOp{kind: "ST"}, vsOp{kind: "SQ", name: v2.name, num: -3600}, vsOp{kind: "CL"}, vsOp{kind: "ST"})
+		ops = append(ops, vsOp{kind: "ST"}, vsOp{kind: "SQ", name: v2.name, num: -3600},
+			vsOp{kind: "SV", name: v1.name, num: -3600, part: vsPart{hash: v1.hash}},
+			vsOp{kind: "SV", name: v2.name, num: -3600, part: vsPart{hash: v2.hash}},
+			vsOp{kind: "CL"}, vsOp{kind: "ST"})
 		return ops
 	}
 	// (b) duplicate of a held file, restart, predecessor arrives
@@ -974,7 +990,16 @@ func verifStageGen(r *gen.Rand) []vsOp {
 			if r.Chance(1, 4) {
 				sent = 0
 			}
-			ops = append(ops, vsOp{kind: "SQ", name: f.name, num: sent})
+			if r.Chance(1, 2) {
+				// the sender names the version it asks about: this one, or (1 in 4) one never announced
+				h := f.hash
+				if r.Chance(1, 4) {
+					h = vsMD5([]byte("never announced"))
+				}
+				ops = append(ops, vsOp{kind: "SV", name: f.name, num: sent, part: vsPart{hash: h}})
+			} else {
+				ops = append(ops, vsOp{kind: "SQ", name: f.name, num: sent})
+			}
 		case 3:
 			var ps []vsPart
 			k := 1 + r.Intn(3)
